@@ -9,6 +9,9 @@
     (ndarray,UTPM) x ALL sign patterns of the element-wise differences in {-1,0,1}^size for size <= 3 x P in {1,2}
     x D in {1,3}: bool(result) == numpy.all(op(x0, y0)) (for != only patterns where all() and any() agree are
     judged: with the default __ne__ Python returns `not (x == y)`);
+(2b) the four arithmetic operators and their in-place forms x operand kinds (UTPM,UTPM), (UTPM,ndarray), (ndarray,UTPM)
+    x ALL broadcast-compatible pairs of 16 shapes of rank 0..3 (including length-1 axes and axis lengths equal to P and
+    to D) x (D,P) menu: shape attributes and zeroth coefficient per direction equal NumPy's;
 (3) every catalogue entry called with plain arrays returns exactly what the reference returns (type, dtype, bytes).
 """
 import itertools
@@ -33,7 +36,8 @@ CHUNK = 12
 
 
 def bounds(tier):
-    return {'DP': DPS, 'catalogue_entries': len(CAT.ENTRIES), 'comparison_sizes': [1, 2, 3]}
+    return {'DP': DPS, 'catalogue_entries': len(CAT.ENTRIES), 'comparison_sizes': [1, 2, 3],
+            'broadcast_grid': {'DP': BDPS, 'shapes': 16, 'operators': sorted(BINOPS), 'operand_kinds': ['U,U', 'U,arr', 'arr,U']}}
 
 
 def units(tier, seed):
@@ -43,8 +47,83 @@ def units(tier, seed):
         us.append({'kind': 'entries', 'names': names[i:i + CHUNK], 'tier': tier, 'seed': seed})
     for opn in ('lt', 'le', 'gt', 'ge', 'eq', 'ne'):
         us.append({'kind': 'cmp', 'op': opn, 'tier': tier, 'seed': seed})
+    for opn in sorted(BINOPS):
+        for (D, P) in BDPS:
+            us.append({'kind': 'bcast', 'op': opn, 'D': D, 'P': P, 'tier': tier, 'seed': seed})
     us.append({'kind': 'meta', 'tier': tier, 'seed': seed})
     return us
+
+
+BINOPS = {'add': operator.add, 'sub': operator.sub, 'mul': operator.mul, 'div': operator.truediv,
+          'iadd': operator.iadd, 'isub': operator.isub, 'imul': operator.imul, 'idiv': operator.itruediv}
+BDPS = [(2, 1), (3, 2), (2, 3), (4, 4)]
+
+
+def bshapes(D, P):
+    """operand shapes: ranks 0..3, length-1 axes, and axis lengths chosen to collide with P and D (the leading axes of
+    the coefficient array, which NumPy would align against if an operand of higher rank were passed through unpadded)"""
+    return sorted(set([(), (1,), (3,), (1, 3), (2, 1), (2, 3), (4, 2, 3), (P,), (D,), (P, 3), (D, 3), (D, P), (P, P), (D, P, 3), (P, 2, 3), (1, 1, 3)]))
+
+
+def bval(shape, p, salt):
+    n = int(np.prod(shape)) if shape else 1
+    v = np.array([(1.0 + ((7 * i + 3 * p + salt) % 11) / 8.0) * (-1) ** (i + p + salt) for i in range(n)])
+    return v.reshape(shape)
+
+
+def run_bcast(u, out):
+    opn, D, P = u['op'], u['D'], u['P']
+    op = BINOPS[opn]
+    inplace = opn.startswith('i')
+    shapes = bshapes(D, P)
+    for sa in shapes:
+        for sb in shapes:
+            try:
+                sr = np.broadcast_shapes(sa, sb)
+            except ValueError:
+                continue
+            if inplace and sr != sa:
+                continue
+            for form in ('U,U', 'U,arr', 'arr,U'):
+                if inplace and form == 'arr,U':
+                    continue
+                if form != 'U,U' and P > 1 and D > 2:
+                    pass
+                A = np.zeros((D, P) + sa)
+                B = np.zeros((D, P) + sb)
+                for p in range(P):
+                    A[0, p] = bval(sa, p, 0)
+                    B[0, p] = bval(sb, p if form == 'U,U' else 0, 5)
+                    for d in range(1, D):
+                        A[d, p] = bval(sa, p, d) * 0.5
+                        B[d, p] = bval(sb, p, d + 2) * 0.25
+                a = UTPM(A.copy()) if form != 'arr,U' else A[0, 0].copy()
+                b = UTPM(B.copy()) if form != 'U,arr' else B[0, 0].copy()
+                case = {'kind': 'bcast', 'op': opn, 'D': D, 'P': P, 'sa': list(sa), 'sb': list(sb), 'form': form}
+                rank = 'rank(b)>rank(a)' if len(sb) > len(sa) else 'rank(b)<rank(a)' if len(sb) < len(sa) else 'same rank'
+                sig = 'C10|bcast %s|%s|%s' % (opn, form, rank)
+                out['evals'] += 1
+                if sr != () and (sa != sb):
+                    out['nontrivial'] += 1
+                try:
+                    r = op(a, b)
+                except Exception as ex:
+                    out['fails'].append({'sig': sig + '|raises', 'case': case, 'detail': {'error': '%s: %s' % (type(ex).__name__, str(ex)[:160])}})
+                    continue
+                if not isinstance(r, UTPM):
+                    out['fails'].append({'sig': sig + '|not a UTPM', 'case': case, 'detail': {'type': type(r).__name__}})
+                    continue
+                if tuple(r.shape) != tuple(sr) or r.data.shape[:2] != (D, P) or r.ndim != len(sr) or r.size != int(np.prod(sr)):
+                    out['fails'].append({'sig': sig + '|shape', 'case': case, 'detail': {'got': list(r.data.shape), 'expected': [D, P] + list(sr)}})
+                    continue
+                for p in range(P):
+                    a0 = A[0, p] if form != 'arr,U' else A[0, 0]
+                    b0 = B[0, p] if form != 'U,arr' else B[0, 0]
+                    ro = BINOPS[opn.lstrip('i')](a0, b0)
+                    if not close(r.data[0, p], ro, 2 if 'div' in opn else 0):
+                        out['fails'].append({'sig': sig + '|zeroth coefficient', 'case': case,
+                                             'detail': {'direction': p, 'got': np.asarray(r.data[0, p]).ravel()[:4].tolist(), 'expected': np.asarray(ro).ravel()[:4].tolist()}})
+                        break
 
 
 def arr0(a, p):
@@ -209,6 +288,9 @@ def run_unit(u):
         out['samples'] = [{'entry': u['names'][0], 'DP': DPS}]
     elif u['kind'] == 'cmp':
         run_cmp(u, out)
+    elif u['kind'] == 'bcast':
+        run_bcast(u, out)
+        out['samples'] = [{'op': u['op'], 'D': u['D'], 'P': u['P'], 'shapes': [list(x) for x in bshapes(u['D'], u['P'])]}]
     else:
         out['lists']['uncatalogued'] = CAT.uncatalogued()
         out['evals'] = 1
@@ -221,6 +303,9 @@ def replay(case):
         check_entry(CAT.BY_NAME[case['name']], case['D'], case['P'], case.get('seed', 0), out)
     elif case['kind'] == 'plain':
         check_plain(CAT.BY_NAME[case['name']], case.get('seed', 0), out)
+    elif case['kind'] == 'bcast':
+        run_bcast(case, out)
+        out['fails'] = [f for f in out['fails'] if all(f['case'].get(k) == case.get(k) for k in ('sa', 'sb', 'form'))]
     else:
         run_cmp({'op': case['op']}, out)
         out['fails'] = [f for f in out['fails'] if all(f['case'].get(k) == case.get(k) for k in ('pattern', 'shape', 'D', 'P', 'pkind', 'form'))]
